@@ -62,7 +62,8 @@ TRunBegin ==
        /\ evals' = o.calls          \* ghost counter starts in agreement with the restored call count
        /\ clus' = [fitted |-> FALSE, K |-> 0]
        /\ UNCHANGED <<cfg, ess, logz, wts, cur, modes, nsw>>
-       /\ Step(Failing([IF_Zero |-> (~o.resumed) => IF_Zero(o), IF_EmptyHistory |-> (~o.resumed) => IF_EmptyHistory(o)]))
+       /\ Step(Failing([IF_Zero |-> (~o.resumed) => IF_Zero(o), IF_EmptyHistory |-> (~o.resumed) => IF_EmptyHistory(o),
+                        IF_HistoryKept |-> (~o.resumed) => IF_HistoryKept(o)]))
 
 PcOk(b) == [PC_Order |-> b]
 
